@@ -1,6 +1,7 @@
 import PbVerif.Model.ConcCode
 import PbVerif.Lemmas.ConcDcl
 import PbVerif.Lemmas.ConcReg
+import PbVerif.Lemmas.ConcNest
 /-
 C19 — Concurrent first use of types, descriptors and registries is safe.
 
@@ -32,7 +33,8 @@ theorem shape_facts :
     Gen.ConcFacts.fileBodySetsL2First = true ∧ Gen.ConcFacts.syncOnceIsDoubleChecked = true ∧
     Gen.ConcFacts.onceTablesGuarded = Gen.ConcFacts.onceTables ∧
     Gen.ConcFacts.registryAccessorsLocked = Gen.ConcFacts.registryAccessors ∧
-    Gen.ConcFacts.registryWritersExclusive = true := by decide
+    Gen.ConcFacts.registryWritersExclusive = true ∧
+    Gen.ConcFacts.aberrantNoLockFreePublishWhileDeriving = true ∧ Gen.ConcFacts.aberrantLockedMapOnlyUnderLock = true := by decide
 
 /-- the three initialisers of the code have the protocol shape the proofs need (flag stored after
 the body, slow path under the lock, and — where the re-check reads the structure — a first write
@@ -314,6 +316,75 @@ theorem register_result_sequential {s : Reg.State} (r : Reg.Reachable (regCfg pr
   split <;> rfl
 
 end reg
+
+/-! ## Mutually recursive legacy ("aberrant") descriptors: derivation under the lock, lock-free cache -/
+section nest
+open Conc.Nest
+
+variable {fields : Bool → Nat} {prog : Nat → Bool}
+
+/-- the code never makes a descriptor reachable without the lock while its derivation (or that of
+its cycle partner) is running: `decide`d from the extracted facts -/
+theorem aberrant_shape (fields : Bool → Nat) (prog : Nat → Bool) : (aberrantCfg fields prog).publish ≠ .nestedEarly := by
+  show aberrantPublish ≠ .nestedEarly
+  decide
+
+/-- Every thread that makes first use of one member of a reference cycle of tag-derived legacy
+messages — through the lock-free cache or through the lock — and walks from its descriptor to the
+other member sees BOTH descriptors complete, whichever member the derivation started from, for all
+schedules and any number of threads. -/
+theorem aberrant_cycle_complete {s : Nest.State} (r : Nest.Reachable (aberrantCfg fields prog) s) {i : Nat} :
+    (s.pc i = .walk → s.dOut = s.kOut ∧ s.dIn = s.kIn) ∧
+    (∀ obs, s.pc i = .done obs → obs = (s.kOut, s.kIn)) := by
+  have inv := Nest.inv_reachable (aberrant_shape fields prog) r
+  exact ⟨fun h => inv.made_complete (inv.walk_st i h), fun obs h => (inv.done_st i obs h).2⟩
+
+/-- All threads observe the same (complete) pair of descriptors. -/
+theorem aberrant_observers_agree {s : Nest.State} (r : Nest.Reachable (aberrantCfg fields prog) s) {i j : Nat} {a b : Nat × Nat}
+    (hi : s.pc i = .done a) (hj : s.pc j = .done b) : a = b := by
+  have inv := Nest.inv_reachable (aberrant_shape fields prog) r
+  rw [(inv.done_st i a hi).2, (inv.done_st j b hj).2]
+
+/-- What the lock-free cache hands out is complete, and the derivation runs under mutual exclusion. -/
+theorem aberrant_lockfree_complete {s : Nest.State} (r : Nest.Reachable (aberrantCfg fields prog) s) :
+    ((s.lfOut = true ∨ s.lfIn = true) → s.dOut = s.kOut ∧ s.dIn = s.kIn) ∧
+    (∀ i k, (s.pc i = .buildInner k ∨ s.pc i = .buildOuter k) → s.mutex = some i) := by
+  have inv := Nest.inv_reachable (aberrant_shape fields prog) r
+  refine ⟨fun h => ?_, fun i k h => ?_⟩
+  · rcases h with h | h
+    · exact inv.made_complete (inv.lf_made.1 h)
+    · exact inv.made_complete (inv.lf_made.2 h)
+  · rcases h with h | h
+    · exact (inv.inner_st i k h).1
+    · exact (inv.outer_st i k h).1
+
+/-- non-vacuity: Outer (type false, 4 fields) ↔ Inner (type true, 1 field); thread 0 derives from
+Outer and is in the middle of Outer's fields, thread 1 (first use of Inner) missed the lock-free
+cache and waits for the lock, thread 2 has not started -/
+example :
+    let cfg := aberrantCfg (fun t => if t then 1 else 4) (fun i => i == 1)
+    let s := Nest.run cfg [0, 0, 0, 0, 0, 0, 0, 0, 1]
+    Nest.Reachable cfg s ∧ s.pc 0 = .buildOuter 2 ∧ s.pc 1 = .lock ∧ s.pc 2 = .fast ∧ s.dIn = 1 ∧ s.dOut = 2 ∧
+    s.lfIn = false ∧ Nest.next cfg s 1 = none :=
+  ⟨Nest.run_reachable _ _, by decide, by decide, by decide, by decide, by decide, by decide, by decide⟩
+
+/-- … continued: everybody observes (4, 1) -/
+example :
+    let cfg := aberrantCfg (fun t => if t then 1 else 4) (fun i => i == 1)
+    let s := Nest.run cfg [0, 0, 0, 0, 0, 0, 0, 0, 1, 0, 0, 0, 0, 0, 0, 1, 1, 1, 1, 2, 2, 2, 2, 2]
+    s.pc 0 = .done (4, 1) ∧ s.pc 1 = .done (4, 1) ∧ s.pc 2 = .done (4, 1) := by decide
+
+/-- If the re-entrant function stored every finished descriptor into the lock-free cache itself
+(`defer legacyMessageDescCache.Store(t, md)` in aberrantLoadMessageDescReentrant), the nested Inner
+would be visible before its cycle partner Outer is complete: a thread making first use of Inner
+takes the lock-free path and, walking Inner.out, reads Outer with 1 of its 4 fields. -/
+theorem nested_early_publish_breaks :
+    let bad : Nest.Cfg := { aberrantCfg (fun t => if t then 1 else 4) (fun i => i == 1) with publish := .nestedEarly }
+    ∃ s, Nest.Reachable bad s ∧ s.pc 1 = .done (1, 1) ∧ s.kOut = 4 ∧ s.pc 0 = .buildOuter 1 := by
+  intro bad
+  exact ⟨Nest.run bad [0, 0, 0, 0, 0, 0, 0, 1, 1], Nest.run_reachable bad _, by decide, by decide, by decide⟩
+
+end nest
 
 /-! ## Non-vacuity -/
 section examples
